@@ -20,7 +20,7 @@ impl Env {
 
     Ok(Self::new(
       dir,
-      env::args(),
+      env::args_os(),
       Box::new(io::stdin()),
       out_stream,
       err_stream,
